@@ -1,2 +1,2 @@
-CONSTANTS Names = {"A", "B"} Vals = {"ref", "empty", "v0", "v1", "txt"} MaxLines = 3 MaxDepth = 2 ExprDepth = 1 AllowBare = FALSE StaleGroup = FALSE AtomKinds = {"def", "defsp", "cmp", "lit"} RelSet = {"==", ">"}
+CONSTANTS Names = {"A", "B"} Vals = {"ref", "empty", "v0", "v1", "txt", "fn"} MaxLines = 3 MaxDepth = 2 ExprDepth = 1 AllowBare = FALSE StaleGroup = FALSE AtomKinds = {"def", "defsp", "cmp", "lit"} RelSet = {"==", ">"}
 SPECIFICATION Spec
